@@ -13,6 +13,7 @@ package micro
 // adds slots to the GLOBAL slot chain on every such call.
 
 import (
+	merrors "github.com/micro/go-micro/v2/errors"
 	"context"
 	"errors"
 	"fmt"
@@ -371,7 +372,9 @@ func c19Matrix(f func(admitted, fallback bool, handler string)) {
 }
 
 var c19Bools = []bool{true, false}
-var c19Handlers = []string{"ok", "err", "panic"}
+// "errtyped": the handler fails with the framework's own error type carrying a client-error status (where the
+// framework has one; elsewhere it is a second plain failure)
+var c19Handlers = []string{"ok", "err", "panic", "errtyped"}
 
 func c19Name(ep string, admitted, fallback bool, handler string) string {
 	if c19PairTag != "" {
@@ -580,6 +583,8 @@ func c19MicroCase(t *testing.T, ep string, admitted, fallback bool, handler stri
 	behave := func() error {
 		c.handlerCalled()
 		switch handler {
+		case "errtyped":
+			return merrors.BadRequest("c19", "c19 typed handler error")
 		case "err":
 			return c19ErrHandler
 		case "panic":
